@@ -161,14 +161,22 @@ func (w *Worker) RunSim(cfg simrt.Config, root func()) (res simrt.Result) {
 	if cfg.KeepTrace == 0 {
 		cfg.KeepTrace = 40
 	}
-	defer func() {
-		if r := recover(); r != nil {
-			res.Bubble = fmt.Sprint(r)
-		}
+	// synctest.Test calls t.FailNow (runtime.Goexit) when the race detector reported something
+	// during the bubble, and panics when blocked goroutines remain: run it on its own goroutine
+	// so that neither ends the worker.
+	done := make(chan struct{})
+	go func() {
+		defer close(done)
+		defer func() {
+			if r := recover(); r != nil {
+				res.Bubble = fmt.Sprint(r)
+			}
+		}()
+		synctest.Test(w.T, func(t *testing.T) {
+			res = simrt.Run(cfg, root)
+		})
 	}()
-	synctest.Test(w.T, func(t *testing.T) {
-		res = simrt.Run(cfg, root)
-	})
+	<-done
 	return
 }
 
